@@ -279,6 +279,12 @@ pub trait Rhs<N>: Sync {
     fn t_lip(&self) -> f64 {
         0.0
     }
+    /// absolute rounding floor (per unit step) of an embedded error estimate re-computed from the
+    /// previous point, where the problem knows it better than the generic 64 eps (1 + |y|) / h: a
+    /// right-hand side that hardly depends on a huge state
+    fn estimate_floor(&self, _t: f64, _ynorm: f64) -> Option<f64> {
+        None
+    }
 }
 
 type Boxed<'a, N, D> = Box<dyn FnMut(f64, &[N], &mut ()) -> Result<BVector<N, D>, UserError> + 'a>;
